@@ -281,7 +281,8 @@ class SelLawsEngine(VectorEngine):
 
     # ---- driver --------------------------------------------------------------------------------------------
     def queries(self, ctx):
-        ctx.mc("MC_SelLaws", self.ref_cfg[ctx.tier], workers=4, timeout=1500)          # vacuity guard (no vectors)
+        if self.ref_cfg:
+            ctx.mc("MC_SelLaws", self.ref_cfg[ctx.tier], workers=4, timeout=1500)      # vacuity guard (no vectors)
         r = ctx.mc("MC_SelLaws", self.q_cfg[ctx.tier], workers=4, timeout=1500)
         vecs = list(ctx.vectors(r))
         sels = sorted((v for v in vecs if v["k"] == "sel"), key=lambda v: v["ia"])
@@ -499,6 +500,7 @@ class C24(SelLawsEngine):
     prop = "C24"
     level = "exploration"
     q_cfg = {"quick": "MC_SelLaws_C24_q.cfg", "thorough": "MC_SelLaws_C24_t.cfg"}
+    ref_cfg = None          # the SuperMonitor (and its vacuity guard) belongs to C23
     rule = ("Operands from the C23 universe (MC_SelLaws.tla): unify for every ordered pair (with rsass's own is-superselector answer for each "
             "operand and each member of the result), extend and replace for every selector x extendee pool x extender pool, nest for every "
             "selector x nested-selector pool (incl. `&` forms) and append for every selector x suffix pool (function result and emitted rule "
